@@ -25,12 +25,16 @@ with open(os.path.join(here, "seeded", "RESULTS.md"), "w") as f:
             "without the change; pinned test-suite passes with it) and then run through `./check <prop>` on /repo HEAD + the change.\n\n")
     f.write("| seed | what the change does | needs, to manifest | quick | thorough | replay | history |\n|---|---|---|---|---|---|---|\n")
     for sid, meta, res in rows:
+        obsolete = os.path.exists(os.path.join(here, "seeded", sid, "OBSOLETE"))
+
         def cell(t):
             r = res.get(t)
+            if obsolete and r:
+                return "%s up to the fix that made it obsolete" % r["verdict"]
             return "–" if not r else "%s (%ss)" % (r["verdict"], r["wall_s"])
         rk = (res.get("quick") or res.get("thorough") or {}).get("replay_kind", "")
         f.write("| %s | %s | %s | %s | %s | %s | %s |\n" % (
             sid, (meta.get("summary", "") or "").replace("|", "/").replace("\n", " ")[:260],
             (meta.get("needs_to_manifest", "") or "").replace("|", "/").replace("\n", " ")[:200], cell("quick"), cell("thorough"), rk,
-            NOTES.get(sid, "caught as first run")))
+            (NOTES.get(sid, "caught as first run") + (" — OBSOLETE on current HEAD: " + open(os.path.join(here, "seeded", sid, "OBSOLETE")).read().split("\n")[0] if obsolete else ""))))
 print("wrote seeded/RESULTS.md (%d seeds)" % len(rows))
